@@ -6,6 +6,7 @@ import (
 	"crypto/ed25519"
 	"encoding/json"
 	"fmt"
+	"math/big"
 	"sort"
 	"strconv"
 	"strings"
@@ -205,6 +206,37 @@ func (w *World) execCreateBinding(stepIdx int, st *Step) {
 		}
 		check("removed:"+pathClass(l.path), editPath(req, l.path, nil, true), l.path[0] == "suffixData")
 	}
+	// members ADDED to objects inside the patches (generic JSON there: every member is hashed); names a lenient
+	// implementation might strip or special-case (private JWK parts, members of neighbouring models)
+	var objs [][]string
+	var walkObjs func(v any, path []string)
+	walkObjs = func(v any, path []string) {
+		switch x := v.(type) {
+		case map[string]any:
+			objs = append(objs, path)
+			for _, k := range core.SortedKeys(x) {
+				walkObjs(x[k], append(append([]string{}, path...), k))
+			}
+		case []any:
+			for i, e := range x {
+				walkObjs(e, append(append([]string{}, path...), strconv.Itoa(i)))
+			}
+		}
+	}
+	walkObjs(getPath(req, []string{"delta", "patches"}), []string{"delta", "patches"})
+	for _, op := range objs {
+		obj, _ := getPath(req, op).(map[string]any)
+		for _, name := range []string{"d", "x5c", "nonce", "extra", "", "id2", "controller", "publicKeyMultibase"} {
+			if _, exists := obj[name]; exists || obj == nil {
+				continue
+			}
+			n++
+			if st.Index > 0 && st.Index != n {
+				continue
+			}
+			check("member-added:"+name+":"+pathClass(op), editPath(req, append(append([]string{}, op...), name), "added", false), false)
+		}
+	}
 	// type-changing modifications: the same characters as another JSON type or structure (a number as a string, a
 	// list as one joined string, a container as its printed form) - single-field modifications an implementation that
 	// flattens values (cache keys, string concatenation) would confuse with the original
@@ -324,7 +356,7 @@ func genJSONValue(r *core.RNG, depth int) any {
 	case 2:
 		return json.Number(core.Pick(r, []string{"0", "1", "-1", "1e21", "1e-7", "0.1", "123456789012", "1.5e300", "4.5", "100", "1e20"}))
 	case 3:
-		return core.Pick(r, []string{"", "text", "ünï ✓", "\u0001\u001f", "quote\"back\\slash/", "\U0001F600", "€", "line\nbreak"})
+		return core.Pick(r, []string{"", "text", "ünï ✓", "\u0001\u001f", "quote\"back\\slash/", "\U0001F600", "€", "line\nbreak", "sep\u2028\u2029", "<&>", "del\u007f", "nul\u0000", "\ufeff", "\uffff\U00010000"})
 	case 4, 5:
 		n := r.Intn(4)
 		l := make([]any, n)
@@ -482,6 +514,12 @@ func (w *World) execCAS(stepIdx int, st *Step) {
 	wrongLen := append([]byte{}, raw...)
 	wrongLen[1]++
 	tryHash("length_field_wrong", ref.B64(wrongLen))
+	for _, nb := range []int{1, 4, 16, len(raw) - 3} {
+		// a self-consistent multihash whose digest is a PREFIX of the real one (length field adjusted)
+		tryHash("digest_prefix_with_matching_length", ref.B64(ref.MultihashBytes(alg, raw[2:2+nb])))
+	}
+	tryHash("digest_extended_with_matching_length", ref.B64(ref.MultihashBytes(alg, append(append([]byte{}, raw[2:]...), 0, 0))))
+	tryHash("identity_code_with_value", ref.B64(ref.MultihashBytes(0, ref.JCS(v))))
 	tryHash("other_algorithm", ref.ModelHash(other, v))
 	tryHash("empty", "")
 	for code := uint(0); code < 0x60; code++ {
@@ -627,6 +665,19 @@ func (w *World) execJWS(stepIdx int, st *Step) {
 		}
 		mustFail(class, fmt.Sprintf("verified under pool key %d (%s)", other.Idx, other.Type), compact, oj)
 	}
+	if key.Type != Ed25519 {
+		// the other point with the same x: (x, p - y) is a valid, different key
+		neg := *jwk
+		p := key.EC.Curve.Params().P
+		ny := new(big.Int).Sub(p, key.EC.Y)
+		nb := make([]byte, key.Type.CoordSize())
+		ny.FillBytes(nb)
+		neg.Y = ref.B64(nb)
+		mustFail("other_key_same_x", "verified under the key with the same x and negated y", compact, &neg)
+		swapped := *jwk
+		swapped.X, swapped.Y = jwk.Y, jwk.X
+		mustFail("other_key_swapped", "verified under the JWK with x and y swapped", compact, &swapped)
+	}
 	// malformed forms, wrong-length signatures, unsupported key types
 	parts := strings.Split(compact, ".")
 	mustFail("malformed", "two segments", parts[0]+"."+parts[1], jwk)
@@ -649,6 +700,10 @@ func (w *World) execJWS(stepIdx int, st *Step) {
 	wrongCrv := *jwk
 	wrongCrv.Crv = "P-999"
 	mustFail("unsupported_crv", "unknown curve", compact, &wrongCrv)
+	// nothing the faults above did may have changed what the matching key verifies (state kept between calls)
+	if got2, verr2 := jwsutil.VerifyJWS(compact, jwk); verr2 != nil || got2 == nil || !bytes.Equal(got2.Payload, payload) {
+		w.violate("C15/valid-rejected-after-faults", key.Type.String(), "the untouched JWS no longer verifies under the matching %s key after the fault enumeration: %v", key.Type, verr2)
+	}
 }
 
 // ------------------------------------------------------------------ C16: public keys through the JWK encoding
